@@ -181,7 +181,9 @@ def case_graph(p, ctx):
         ctx.cls("duplicated_names")
     if any(real.two_out):
         ctx.cls("second_output")
-    for order in _orders(p, n):
+    for k, order in enumerate(_orders(p, n)):
+        if k and not ctx.replaying:
+            ctx.case("graph_order")  # every (graph, listing order) pair is one evaluated case
         listed = [discs[i] for i in order]
         cs = CouplingStructure(listed)
         n_stages, exact = check_structure(ctx, cs, listed, node_of, real, order)
